@@ -206,6 +206,15 @@ func (a *array) rtype() reflect.Type  { return a.t.Type }
 // malloc is standard Go allocation of a block of memory - the plus side is that Go manages the memory
 func malloc(t Dtype, length int) []byte {
 	size := int(calcMemSize(t, length))
+	switch t.Kind() {
+	case reflect.String, reflect.UnsafePointer, reflect.Ptr, reflect.Interface, reflect.Slice, reflect.Map, reflect.Chan, reflect.Func, reflect.Struct, reflect.Array:
+		// element types that hold pointers have to live in memory the garbage collector scans as such: in a []byte the
+		// strings (pointers, ...) stored in the tensor are invisible to it and are freed while the tensor still uses them
+		if length > 0 {
+			s := reflect.MakeSlice(reflect.SliceOf(t.Type), length, length)
+			return unsafe.Slice((*byte)(unsafe.Pointer(s.Pointer())), size)
+		}
+	}
 	return make([]byte, size)
 }
 
